@@ -64,9 +64,19 @@ class Rec:
         self.calls: List[Tuple[str, str]] = []
         self.mode = mode
 
+        def scribble(x):
+            # user code that works in place on what it is handed: the wrapper must hand out private copies
+            try:
+                if isinstance(x, np.ndarray) and x.flags.writeable:
+                    x[...] = 555.0
+            except (ValueError, TypeError):
+                pass
+
         def f(x):
             self.calls.append(("F", pkey(x)))
-            return Fc(x) if mode == "cs" else F(x)
+            v = Fc(x) if mode == "cs" else F(x)
+            scribble(x)
+            return v
 
         buf = np.empty(2)
 
@@ -74,8 +84,11 @@ class Rec:
             self.calls.append(("G", pkey(x)))
             if mode == "callable_buf":
                 buf[:] = Gr(x)
+                scribble(x)
                 return buf
-            return Gr(x)
+            gv = Gr(x)
+            scribble(x)
+            return gv
 
         jac = g if mode in CALLABLE else mode
         self.x0arr = PTS[0].copy()   # the caller keeps (and may overwrite) the array it constructed with
